@@ -196,6 +196,7 @@ func (w *idpWorld) canon(rec *countingWriter, kind string) string {
 		if ck.Name == "session" && ck.Value != "" {
 			if _, ok := w.sids[ck.Value]; !ok {
 				w.sids[ck.Value] = fmt.Sprintf("s%d", len(w.sids))
+				sidBorn[ck.Value] = w.now
 			}
 			setc = w.sids[ck.Value]
 		}
@@ -532,6 +533,7 @@ func (w *idpWorld) sso(entity string, valid bool, user, pw string, hasCred bool,
 		w.faulted = true
 	}
 	res := w.do(r, "sso")
+	w.checkUnexpired(res, sid, hasCred)
 	w.checkSAML(res, entity)
 	w.checkAuthn(res, user, pw, hasCred, sid)
 	// "the assertion describes the user as stored at login": form credentials of <user> yield an assertion about <user>
@@ -559,8 +561,24 @@ func (w *idpWorld) shortcut(name, suffix, sid string, faults []string) string {
 	}
 	toks := joinToks([]string{"shortcut", encStr(name), encStr(suffix)}, w.cookieTok(sid))
 	res := w.do(idpReq{toks: toks, method: "GET", path: path, cookie: sid, faults: faults}, "shortcut")
+	w.checkUnexpired(res, sid, false)
 	w.checkSAML(res, w.shortcutSP[name])
 	return res
+}
+
+// when each session cookie was first handed out (sessions of the bundled server last one hour)
+var sidBorn = map[string]time.Time{}
+
+// direct oracle: "the cookie of a stored, unexpired session" — a request that carries only a cookie gets an assertion (or the
+// session shown) only within the session's lifetime
+func (w *idpWorld) checkUnexpired(res, sid string, hasCred bool) {
+	born, ok := sidBorn[sid]
+	if hasCred || !ok || !(strings.Contains(res, "/saml:") || strings.Contains(res, "/session:")) {
+		return
+	}
+	if w.now.After(born.Add(time.Hour)) {
+		w.orc = append(w.orc, fmt.Sprintf("key=expired-session-honoured step %d: the cookie of a session created %s ago (lifetime one hour) still obtained %s", w.n, w.now.Sub(born), strings.SplitN(res, "/", 3)[1]))
+	}
 }
 
 // direct oracle: an assertion goes only to an SP that is stored (registered) at that moment
